@@ -125,7 +125,7 @@ Fixpoint close_loop (fuel : nat) (todo : list kstate) (seen : seen_t) (quies : l
       end
   end.
 
-Definition FUEL : nat := 4000.   (* more does not pay: the seen-set is a list, exploration is quadratic; exhausted = inconclusive *)
+Definition FUEL : nat := 3000.   (* more does not pay: the seen-set is a list, exploration is quadratic; exhausted = inconclusive *)
 
 Definition closure (l : list state) : list kstate * bool :=
   let '(todo, seen) := add_all (map mk l) [] [] in close_loop FUEL todo seen [].
